@@ -10,7 +10,9 @@
 (* receive.  A peer performs at most `Budget` API actions (send, receive,  *)
 (* release, abort, release reply) and then lets the association go         *)
 (* (`Drop`, always possible, costs nothing), which bounds the channels at  *)
-(* `Budget` PDUs and makes the graph finite and small.                     *)
+(* `Budget` PDUs and makes the graph finite and small.  (In conforming-SCP *)
+(* mode, used for the storescp tool, nothing is budgeted; there a channel  *)
+(* holds at most `Cap` PDUs, which a lock-step requestor never exceeds.)   *)
 (*                                                                         *)
 (* Every sub-action of Next is a named definition  <side>_<Action>[_<kind>] *)
 (* that applies one operator to literal arguments, e.g. Recv("A", "RRQ").   *)
@@ -35,7 +37,8 @@
 (***************************************************************************)
 EXTENDS Naturals, Sequences
 
-CONSTANTS Budget       \* API actions per side
+CONSTANTS Budget,      \* API actions per side (general mode)
+          Cap          \* PDUs in flight per direction (conforming-SCP mode, which has no budget)
 
 Sides == {"R", "A"}
 Other(s) == IF s = "R" THEN "A" ELSE "R"
@@ -83,13 +86,15 @@ Step(s, put, take, newst, closes, cost, newpend) ==
     LET o == Other(s)
         out == IF put # "-" /\ open[o] THEN Append(chan[s], put) ELSE chan[s]
         inc == IF closes THEN <<>> ELSE IF take THEN Tail(chan[o]) ELSE chan[o]
+        c == IF conf THEN 0 ELSE cost       \* the SCP mode is not budgeted: it is bounded by Cap
     IN  /\ UNCHANGED conf
         /\ open[s]
-        /\ left[s] >= cost
+        /\ left[s] >= c
+        /\ (put # "-" /\ conf) => Len(chan[s]) < Cap
         /\ chan' = [chan EXCEPT ![s] = out, ![o] = inc]
         /\ st'   = [st EXCEPT ![s] = newst]
         /\ open' = [open EXCEPT ![s] = ~closes]
-        /\ left' = [left EXCEPT ![s] = @ - cost]
+        /\ left' = [left EXCEPT ![s] = @ - c]
         /\ pend' = [pend EXCEPT ![s] = newpend]
         /\ hist' = [hist EXCEPT ![s] =
                       [rrq  |-> @.rrq \/ put = "RRQ",
@@ -110,7 +115,7 @@ SendData(s) == /\ st[s] = "Est" /\ Free(s)
 \* a PDU of a type the standard does not define (the library can write and read one)
 \* (at most one per side: it behaves like one more kind of data and only has to be seen once by
 \* every receiving state)
-SendUnk(s) == /\ st[s] = "Est" /\ Free(s) /\ ~hist[s].unk
+SendUnk(s) == /\ st[s] = "Est" /\ Free(s) /\ (~hist[s].unk \/ conf)
               /\ Step(s, "UNK", FALSE, "Est", FALSE, 1, pend[s])
 
 \* receive() hands the application the head PDU
